@@ -11,6 +11,7 @@ def rules(ctx):
     S.c06_r4_rebuild(ctx)
     S.c12_db_rules(ctx)
     S.walker_rules(ctx)
+    S.full_range_rules(ctx)
     S.c20_r4_page_addresses(ctx)
     S.c14_rules(ctx)
     S.refcount_rules(ctx)
